@@ -115,6 +115,9 @@ def handleHs : List String → String
 
 def handle : List String → String
   | "trace" :: rest => handleTrace rest
+  | ["racerun", _, _, _] =>
+    -- the model has no data: a race-detector run of the harness must be clean and agree
+    "build=ok races=0 mism=0"
   | ["par", subs] => "|".intercalate ((subs.splitOn "|").map (fun sub => handleHs (sub.splitOn ";")))
   | ["prestart", dir, n, mode] =>
     match n.toNat? with
